@@ -117,10 +117,11 @@ def nspikes(masks):
     return sum(lattice.popcount(m) for m in masks)
 
 
-def run_states(task, fn, prop):
-    """Generic driver: fn(result, k, masks, task) is the invariant."""
+def run_states(task, fn, prop, states=None):
+    """Generic driver: fn(result, k, masks, task) is the invariant; `states` overrides the
+    state iterator of the task's regime (mixed-rate triples)."""
     r = Result()
-    for k, masks in iter_task_states(task):
+    for k, masks in (states if states is not None else iter_task_states(task)):
         r.states += 1
         r.transitions += 1
         if lattice.nontrivial(masks):
@@ -134,7 +135,8 @@ def run_states(task, fn, prop):
             tb = traceback.format_exc().strip().splitlines()
             r.violation(prop, "harness.exception", task.get("backend", "py"),
                         "harness.exception/%s" % type(e).__name__,
-                        dict(state_case(k, masks), harness_exception=True, task={
+                        dict(state_case(k, masks), harness_exception=True,
+                             replay="task" if states is not None else "state", task={
                             kk: vv for kk, vv in task.items() if kk not in ("shard", "nshards")}),
                         "invariant evaluates", "%s: %s" % (type(e).__name__, e),
                         "evaluating the invariant raised: " + " | ".join(tb[-3:]),
